@@ -45,16 +45,22 @@ where
 
     #[inline]
     fn real_stored_len(&self) -> usize {
+        #[cfg(anydb_verif)]
+        crate::verif_locks::tap("pages", &self.pages, false);
         self.pages.read().stored_len(Self::PER_PAGE)
     }
 
     fn write(&mut self) -> Result<bool> {
         self.base.write_header_if_needed()?;
+        #[cfg(anydb_verif)]
+        rawdb::verif_tap::pause("comp-write:after-header");
 
         let stored_len = self.stored_len();
         let pushed_len = self.base.pushed().len();
 
         let (truncate_at, starting_page_index, partial_page) = {
+            #[cfg(anydb_verif)]
+            crate::verif_locks::tap("pages", &self.pages, false);
             let pages = self.pages.read();
 
             let real_stored_len = pages.stored_len(Self::PER_PAGE);
@@ -111,8 +117,14 @@ where
             let raw = S::values_to_bytes(&taken);
             let append_at = page.end() as usize;
             self.region().truncate_write(append_at, &raw)?;
+            #[cfg(anydb_verif)]
+            rawdb::verif_tap::pause("comp-write:fast:after-region-write");
 
+            #[cfg(anydb_verif)]
+            crate::verif_locks::tap("pages", &self.pages, true);
             let mut pages = self.pages.write();
+            #[cfg(anydb_verif)]
+            rawdb::verif_tap::pause("comp-write:fast:pages-locked");
             pages.truncate(starting_page_index);
             pages.checked_push(
                 starting_page_index,
@@ -122,8 +134,14 @@ where
                     (partial_len + pushed_len) as u32,
                 ),
             )?;
+            #[cfg(anydb_verif)]
+            rawdb::verif_tap::pause("comp-write:fast:after-index");
             self.base.update_stored_len(stored_len + pushed_len);
+            #[cfg(anydb_verif)]
+            rawdb::verif_tap::pause("comp-write:fast:after-publish");
             pages.flush()?;
+            #[cfg(anydb_verif)]
+            rawdb::verif_tap::pause("comp-write:fast:after-index-flush");
             return Ok(true);
         }
 
@@ -137,6 +155,8 @@ where
         } else {
             vec![]
         };
+        #[cfg(anydb_verif)]
+        rawdb::verif_tap::pause("comp-write:slow:after-decode");
 
         // Encode pages with no locks held. Full pages compress; the last
         // partial page is stored raw (avoids recompression on every write).
@@ -164,8 +184,14 @@ where
 
         // Write the region before re-taking the pages lock to avoid deadlock.
         self.region().truncate_write(truncate_at as usize, &buf)?;
+        #[cfg(anydb_verif)]
+        rawdb::verif_tap::pause("comp-write:slow:after-region-write");
 
+        #[cfg(anydb_verif)]
+        crate::verif_locks::tap("pages", &self.pages, true);
         let mut pages = self.pages.write();
+        #[cfg(anydb_verif)]
+        rawdb::verif_tap::pause("comp-write:slow:pages-locked");
         pages.truncate(starting_page_index);
 
         for (i, &(byte_len, values_len, is_raw)) in page_sizes.iter().enumerate() {
@@ -177,9 +203,15 @@ where
             };
             pages.checked_push(starting_page_index + i, page)?;
         }
+        #[cfg(anydb_verif)]
+        rawdb::verif_tap::pause("comp-write:slow:after-index");
 
         self.base.update_stored_len(stored_len + pushed_len);
+        #[cfg(anydb_verif)]
+        rawdb::verif_tap::pause("comp-write:slow:after-publish");
         pages.flush()?;
+        #[cfg(anydb_verif)]
+        rawdb::verif_tap::pause("comp-write:slow:after-index-flush");
 
         Ok(true)
     }
